@@ -53,7 +53,9 @@ class ChangePredicate(PassPredicate):
 
         hashes: list[int] = []
         for op in circuit:
-            hashes.append(hash(repr(op)))
+            hashes.append(
+                hash((op.gate, op.location, tuple(op.params))),
+            )
 
             # Don't let the hash list grow too large.
             if len(hashes) >= 100:
